@@ -404,8 +404,9 @@ def into_data(val: Convertible, ty: t.Optional[IntoConverter] = None, *,
     """
     by_runtime_type = ty is None
     if by_runtime_type:
-        if isinstance(val, _ScalarType) and custom is None:
+        if isinstance(val, _ScalarType) and not isinstance(val, enum.Enum) and custom is None:
             # we can bypass the converter for scalar types
+            # (but a member of an enum mixing in str or int is written as its value)
             return val
         ty = type(val)
 
